@@ -15,7 +15,7 @@ KNOWN_OPS = [0x00, 0x01, 0x06, 0x08, 0x0a, 0x10, 0x11, 0x12, 0x14, 0x70, 0xa0, 0
 NAMES = [b'AAAA', b'ABCD', b'_SB_', b'PCI0', b'X123', b'_Z9_', b'B___', b'IDE0', b'_ADR', b'_CRS', b'ZZZZ', b'A___', b'Q0Q0', b'____']
 ODD_BYTES = [0x5c, 0x5e, 0x2e, 0x2f, 0x00, 0x01, 0x02, 0x03, 0x41, 0x5a, 0x5f, 0x30, 0x39, 0x40, 0x5b, 0x60, 0x61, 0xff, 0x20]
 
-NARGS = {0: 2, 1: 6, 2: 2, 3: 3, 4: 2, 5: 1, 6: 0, 8: 1, 9: 2, 10: 1, 11: 1, 12: 1}
+NARGS = {0: 2, 1: 6, 2: 2, 3: 3, 4: 2, 5: 1, 6: 0, 8: 1, 9: 2, 10: 1, 11: 1, 12: 1, 14: 1}
 
 
 def parse_cmds(nums):
@@ -113,6 +113,33 @@ class Sim:
     def flat(self):
         return [x for c in self.cmds for x in c]
 
+    def up_path(self, s):
+        """the scopes the single-segment search rule visits, in order"""
+        out = []
+        while s != -1:
+            out.append(s)
+            s = self.parent[s]
+        return out
+
+    def search(self, s, name):
+        """-> (answer or None, position in up_path of the scope that holds it)"""
+        path = self.up_path(s)
+        for k, sc in enumerate(path):
+            for c in self.kids[sc]:
+                if self.name[c] == name:
+                    return c, k
+        return None, len(path)
+
+    def fresh_name(self, rng, scope, avoid):
+        used = {self.name[k] for k in self.kids[scope]} | {avoid}
+        cands = [n for n in NAMES if n not in used]
+        if cands:
+            return rng.choice(cands)
+        while True:
+            n = bytes([0x46] + [rng.choice(b'ABCDEFGHIJKLMNOPQRSTUVWXYZ0123456789_') for _ in range(3)])
+            if n not in used:
+                return n
+
     def path_down(self, rng, start, maxlen):
         """names along a random downward path from start (possibly empty), and its end"""
         segs, cur = [], start
@@ -202,7 +229,7 @@ def gen_history(rng, kind, size):
     else:
         sim.create(SCOPEBLOCK, th, b'\\\0\0\0')
     illegal_at = rng.randrange(2, size + 2) if kind == 'illegal' else None
-    find_w = {'edit': 0.12, 'find': 0.45, 'illegal': 0.10}[kind]
+    find_w = {'edit': 0.12, 'find': 0.45, 'illegal': 0.10, 'memo': 0.0}[kind]
     for step in range(size):
         live = sim.live()
         if not live:
@@ -290,6 +317,18 @@ def gen_history(rng, kind, size):
             leaves = [i for i in live if not sim.kids[i] and i != 0]
             if leaves:
                 sim.free_(rng.choice(leaves))
+    if kind == 'memo':
+        for _ in range(rng.randrange(3, 9)):
+            memo_round(rng, sim, th)
+            # a few ordinary edits between rounds keep the tree moving
+            if rng.random() < 0.3:
+                live = sim.live()
+                detached = [i for i in live if sim.parent[i] == -1 and i != 0]
+                if detached:
+                    a = rng.choice(detached)
+                    parents = [o for o in live if not sim.anc_or_self(a, o)]
+                    if parents:
+                        sim.append(rng.choice(parents), a)
     if not sim.tainted and kind == 'find':
         live = sim.live()
         for _ in range(rng.randrange(5, 25)):
@@ -298,6 +337,182 @@ def gen_history(rng, kind, size):
             scope = rng.choice(live)
             e = gen_expr(rng, sim, scope)
             sim.cmds.append([7, scope, len(e)] + list(e))
+    sim.cmds.append([6])
+    return sim.flat()
+
+
+def memo_round(rng, sim, th):
+    """a lookup, then edits of ONE kind chosen so that they change (or could change) the answer of that very
+    lookup, then the identical lookup again -- lookups must not remember anything across edits"""
+    live = sim.live()
+    if not live:
+        return
+    S = max(rng.sample(live, min(3, len(live))), key=sim.depth) if rng.random() < 0.6 else rng.choice(live)
+    path = sim.up_path(S)
+    single = rng.random() < 0.7
+    if single:
+        present = [sim.name[k] for sc in path for k in sim.kids[sc] if is_seg(sim.name[k])]
+        N = rng.choice(present) if present and rng.random() < 0.6 else rng.choice(NAMES)
+        finds = [[7, S, 4] + list(N)]
+        ans, k = sim.search(S, N)
+    else:
+        segs, end = sim.path_down(rng, S, 4)
+        N = rng.choice(NAMES)
+        miss = not any(sim.name[c] == N for c in sim.kids[end])
+        e = rng.choice([b'', b'^' if sim.parent[S] != -1 else b'', b'\\' if S == 0 or not segs else b'']) + pack(rng, segs + [N])
+        if e[:1] == b'^':
+            # relative to the parent: use the path from there
+            segs, end = sim.path_down(rng, sim.parent[S], 3)
+            miss = not any(sim.name[c] == N for c in sim.kids[end])
+            e = b'^' + pack(rng, segs + [N])
+        elif e[:1] == b'\\' and S != 0:
+            e = pack(rng, [N])
+            e = e if len(e) > 4 else b'\\' + e
+            end, miss = 0, not any(sim.name[c] == N for c in sim.kids[0]) if sim.alive[0] else (0, False)
+        finds = [[7, S, len(e)] + list(e)]
+        ans, k = (None, 1) if miss else (next((c for c in sim.kids[end] if sim.name[c] == N), None), 0)
+        path = [end]
+    if rng.random() < 0.3:
+        s2 = rng.choice(live)
+        e2 = gen_expr(rng, sim, s2)
+        finds.append([7, s2, len(e2)] + list(e2))
+    before = path[:k]                      # scopes searched before the one that answers
+    kind = rng.choice(['insert_mid', 'insert_mid', 'insert_mid', 'insert_tail', 'append', 'detach_ans', 'free_ans', 'create_only', 'detach_scope', 'reattach'])
+    if kind in ('insert_mid', 'insert_tail', 'append') and not before:
+        kind = rng.choice(['detach_ans', 'free_ans'])
+    if kind in ('detach_ans', 'free_ans') and (ans is None or ans == 0 or sim.parent[ans] == -1):
+        kind = 'create_only'
+    if kind == 'free_ans' and sim.kids[ans]:
+        kind = 'detach_ans'
+    if kind in ('insert_mid', 'insert_tail', 'append'):
+        T = rng.choice(before)
+        need = 2 if kind == 'insert_mid' else 1 if kind == 'insert_tail' else 0
+        while len(sim.kids[T]) < need:      # fillers go in BEFORE the first lookup
+            f = sim.create(SCOPEBLOCK, th, sim.fresh_name(rng, T, N))
+            sim.append(T, f)
+        sim.cmds += [list(f) for f in finds]
+        for rep in range(rng.choice([1, 1, 2])):
+            if rep == 1:
+                N2 = sim.fresh_name(rng, T, N)
+            a = sim.create(rng.choice(KNOWN_OPS), th, N if rep == 0 else N2)
+            if kind == 'insert_mid':
+                sim.append_after(T, a, rng.choice(sim.kids[T][:-1]))
+            elif kind == 'insert_tail':
+                sim.append_after(T, a, sim.kids[T][-1])
+            else:
+                sim.append(T, a)
+    elif kind == 'detach_ans':
+        sim.cmds += [list(f) for f in finds]
+        sim.detach(sim.parent[ans], ans)
+    elif kind == 'free_ans':
+        sim.cmds += [list(f) for f in finds]
+        sim.free_(ans)
+    elif kind == 'create_only':
+        sim.cmds += [list(f) for f in finds]
+        for _ in range(rng.randrange(1, 3)):
+            sim.create(rng.choice(KNOWN_OPS), th, N)
+    elif kind == 'detach_scope':
+        cands = [sc for sc in sim.up_path(S) if sim.parent[sc] != -1 and sc != 0]
+        sim.cmds += [list(f) for f in finds]
+        if cands:
+            sc = rng.choice(cands)
+            sim.detach(sim.parent[sc], sc)
+    else:                                   # move a detached subtree (with its names) onto the search path
+        detached = [i for i in live if sim.parent[i] == -1 and i != 0 and not sim.anc_or_self(i, S)]
+        sim.cmds += [list(f) for f in finds]
+        if detached and before:
+            a = rng.choice(detached)
+            T = rng.choice(before)
+            if not any(sim.name[c] == sim.name[a] for c in sim.kids[T]):
+                if len(sim.kids[T]) >= 2 and rng.random() < 0.6:
+                    sim.append_after(T, a, rng.choice(sim.kids[T][:-1]))
+                else:
+                    sim.append(T, a)
+    if all(sim.alive[f[1]] for f in finds):
+        sim.cmds += [list(f) for f in finds]
+
+
+def nm26(prefix, i):
+    return bytes([prefix, 0x41 + i // 676 % 26, 0x41 + i // 26 % 26, 0x41 + i % 26])
+
+
+def gen_deep2(rng, shape):
+    """chains of 130-300 nested scopes / scopes with 130-300 children (beyond any plausible fixed cap or 8-bit
+    counter in a loop of the lookup code): bare names declared at every height looked up from the bottom,
+    '^' runs, long downward paths, NumArgs/ArgAt on wide scopes"""
+    sim = Sim()
+    sim.cmds.append([14, 0])               # no whole-pool digest after every edit (quadratic); the final dump compares everything
+    sim.create(SCOPEBLOCK, 0, b'\\\0\0\0')
+    marks = [0, 1, 2, 31, 32, 63, 64, 65, 100, 127, 128, 129, 130, 199, 200, 254, 255, 256, 257, 258, 299]
+    if shape == 'chain':
+        depth = rng.choice([130, 131, 160, 200, 257, 258, 300])
+        chain = [0]
+        side = {}
+        for d in range(1, depth + 1):
+            i = sim.create(rng.choice([SCOPEBLOCK, SCOPEBLOCK, 0x14, 0xff + 0x82]), 0, nm26(0x53, d))
+            if rng.random() < 0.15:
+                j = sim.create(SCOPEBLOCK, 0, nm26(0x54, d))
+                sim.append(chain[-1], j)
+                side[d] = j
+            sim.append(chain[-1], i)
+            chain.append(i)
+        for _ in range(rng.randrange(14, 26)):
+            s = rng.choice([depth, depth, depth, depth - 1, rng.randrange(1, depth + 1)])
+            d = rng.choice(marks + [s, s - 1, rng.randrange(0, s + 1)])
+            d = max(0, min(d, s))
+            h = s - d + 1                      # nm26('S', h) is declared in chain[h-1], d parents above chain[s]
+            scope = chain[s]
+            r = rng.random()
+            if r < 0.5:
+                nm = nm26(0x53, h) if h <= depth else nm26(0x53, depth)
+                if side and rng.random() < 0.3:
+                    hh = min(side, key=lambda x: abs(x - h))
+                    nm = nm26(0x54, hh)
+                e = nm
+            elif r < 0.6:
+                e = rng.choice([nm26(0x51, 1), b'NONE', nm26(0x53, depth + 5)])
+            elif r < 0.75:
+                e = b'^' * d + (nm26(0x53, s - d + 1) if s - d + 1 <= depth and rng.random() < 0.7 else b'')
+            elif r < 0.9:
+                n = rng.choice([2, 64, 127, 128, 129, 200, 255, d + 1])
+                start = rng.choice([0, 0, rng.randrange(0, depth)])
+                n = max(2, min(n, depth - start, 255))
+                if depth - start < 2:
+                    continue
+                body = bytes([0x2f, n]) + b''.join(nm26(0x53, start + k) for k in range(1, n + 1))
+                scope, e = (rng.choice(chain), b'\\' + body) if start == 0 else (chain[start], body)
+            else:
+                start = rng.choice([0, rng.randrange(0, max(1, depth - 130))])
+                n = rng.choice([depth - start, 256, 257, 130])
+                n = max(2, min(n, depth - start))
+                body = b''.join(nm26(0x53, start + k) for k in range(1, n + 1))      # plain concatenation, any length
+                scope, e = (rng.choice(chain), b'\\' + body) if start == 0 else (chain[start], body)
+            sim.cmds.append([7, scope, len(e)] + list(e))
+    else:
+        width = rng.choice([130, 200, 256, 257, 300])
+        host = sim.create(SCOPEBLOCK, 0, b'WIDE')
+        sim.append(0, host)
+        kidsl = []
+        for d in range(width):
+            i = sim.create(SCOPEBLOCK, 0, nm26(0x53, d))
+            sim.append(host, i)
+            kidsl.append(i)
+        leaf = sim.create(SCOPEBLOCK, 0, b'LEAF')
+        sim.append(kidsl[-1], leaf)
+        for _ in range(rng.randrange(10, 20)):
+            d = min(rng.choice(marks + [width - 1, width - 2, rng.randrange(0, width)]), width - 1)
+            r = rng.random()
+            if r < 0.35:
+                sim.cmds.append([7, rng.choice([host, leaf, kidsl[0], kidsl[-1]]), 4] + list(nm26(0x53, d)))
+            elif r < 0.55:
+                e = b'\\WIDE' + nm26(0x53, d) + (b'LEAF' if d == width - 1 and rng.random() < 0.5 else b'')
+                sim.cmds.append([7, rng.choice([0, leaf]), len(e)] + list(e))
+            elif r < 0.7:
+                sim.cmds.append([8, host])
+            elif r < 0.9:
+                sim.cmds.append([9, host, rng.choice([d, width - 1, width, 255, 256])])
+            else:
+                sim.cmds.append([7, leaf, 4] + list(rng.choice([b'WIDE', b'NONE', nm26(0x53, width)])))
     sim.cmds.append([6])
     return sim.flat()
 
@@ -408,15 +623,18 @@ class C13(flow.Spec):
             if k % 125 == 7:
                 out.append((gen_deep(rng), 'deep'))
                 continue
+            if k % 250 == 13:
+                out.append((gen_deep2(rng, 'chain' if k % 750 != 13 else 'wide'), 'deep2'))
+                continue
             r = rng.random()
-            kind = 'edit' if r < 0.40 else 'find' if r < 0.82 else 'illegal'
-            size = rng.choice([4, 8, 12, 20, 30, 45, 60]) if kind != 'find' else rng.choice([10, 20, 30, 40, 60])
+            kind = 'edit' if r < 0.32 else 'find' if r < 0.68 else 'memo' if r < 0.84 else 'illegal'
+            size = rng.choice([4, 8, 12, 20, 30, 45, 60]) if kind not in ('find', 'memo') else rng.choice([10, 20, 30, 40, 60])
             out.append((gen_history(rng, kind, size), kind))
         return out
 
     def explain(self, nums):
         names = {0: 'new', 1: 'newNamed', 2: 'append', 3: 'appendAfter', 4: 'detach', 5: 'free', 6: 'dump', 7: 'Find', 8: 'NumArgs',
-                 9: 'ArgAt', 10: 'ClosestNamedAncestor', 11: 'ObjectAt', 12: 'CreateDefaultScopes', 13: 'findRelative'}
+                 9: 'ArgAt', 10: 'ClosestNamedAncestor', 11: 'ObjectAt', 12: 'CreateDefaultScopes', 13: 'findRelative', 14: 'digests'}
         s = []
         for c in parse_cmds(nums):
             if c[0] in (7, 13):
@@ -433,8 +651,23 @@ class C13(flow.Spec):
 
     def shrink_candidates(self, nums):
         cmds = parse_cmds(nums)
+        flat = lambda cs: [x for c in cs for x in c]
+        trav = (7, 13, 8, 9, 10, 11, 6)
+        # only one lookup (with its verbatim repetitions), all edits
+        seen = []
+        for c in reversed(cmds):
+            if c[0] in (7, 13, 8, 9, 10) and c not in seen:
+                seen.append(c)
+        for f in seen[:80]:
+            yield flat([c for c in cmds if c[0] not in trav or c == f])
+        # prefixes
+        n = len(cmds)
+        for k in sorted({n * 1 // 4, n // 2, n * 3 // 4, n * 7 // 8, n - 8, n - 4, n - 2, n - 1}):
+            if 0 < k < n:
+                yield flat(cmds[:k])
+        # drop one command, from the end
         for j in range(len(cmds) - 1, -1, -1):
-            yield [x for k, c in enumerate(cmds) if k != j for x in c]
+            yield flat([c for k, c in enumerate(cmds) if k != j])
         # shorten lookup expressions
         for j, c in enumerate(cmds):
             if c[0] == 7 and c[2] > 0:
